@@ -1,8 +1,8 @@
 /-
 The cached lengths of the index tree, as an executable predicate: `Tree.lensExact t` holds when every allocated
 node's `VisibleLength`/`TotalLength` is its own UTF-16 length plus the padded lengths of its visible / of all its
-children - what `index.Node` intends to maintain. It is NOT an invariant of the pinned code (Props/C19.lean:
-`lens_exact_witness_surrogate`; `stale_length_witness_off` is repaired, 7d079773), which is why `Tree.WF` does not contain it.
+children - what `index.Node` intends to maintain. It was NOT an invariant of the code before two repairs and is not proved as one (Props/C19.lean:
+`lens_exact_witness_surrogate_off` is repaired, 0e18e1d8; `stale_length_witness_off` is repaired, 7d079773), which is why `Tree.WF` does not contain it.
 -/
 import YorkieModel.Model.TreeDoc
 namespace Yorkie.Tree
